@@ -1,9 +1,10 @@
 """What a handful of fixed inputs give, as one JSON document on stdout.
 
 Run by the `interpreter-flags` checks (C16, C17) in-process and in children
-started with ``python -O`` and ``python -bb`` and compared: nothing the
-library computes may depend on its ``assert`` statements being executed, or
-on a bytes object being compared with a str.
+started with ``python -O``, with ``python -bb`` and with DEBUG logging
+switched on, and compared: nothing the library computes may depend on its
+``assert`` statements being executed, on a bytes object being compared with a
+str, or on whether anybody listens to its log messages.
 
     python [-O] -m dxv.ocheck          (VERIF_REPO selects the tree)
 """
@@ -139,9 +140,17 @@ def compare(st, prefixes, HarnessError):
     n = 0
 
     for flag, name in (('-O', 'assert-statements'),
-                       ('-bb', 'bytes-str-comparisons')):
-        p = subprocess.run([sys.executable, flag, '-m', 'dxv.ocheck'],
-                           env=env, cwd=VERIF, stdout=subprocess.PIPE,
+                       ('-bb', 'bytes-str-comparisons'),
+                       ('debug-logging', 'the-logging-level')):
+        cmd = [sys.executable, flag, '-m', 'dxv.ocheck']
+        cenv = env
+
+        if flag == 'debug-logging':
+            # an application that has switched DEBUG logging on
+            cmd = [sys.executable, '-m', 'dxv.ocheck']
+            cenv = dict(env, DXV_OCHECK_DEBUG_LOGGING='1')
+
+        p = subprocess.run(cmd, env=cenv, cwd=VERIF, stdout=subprocess.PIPE,
                            stderr=subprocess.PIPE, timeout=600)
 
         if p.returncode != 0:
@@ -175,5 +184,11 @@ def compare(st, prefixes, HarnessError):
 
 if __name__ == '__main__':
     sys.path.insert(0, VERIF)
+
+    if os.environ.get('DXV_OCHECK_DEBUG_LOGGING'):
+        import logging
+        logging.basicConfig(level=logging.DEBUG,
+                            stream=open(os.devnull, 'w'))
+
     json.dump({'optimised': not __debug__, 'results': compute()},
               sys.stdout, sort_keys=True)
